@@ -645,6 +645,34 @@ func reuseTable() []reuse {
 	return tab
 }
 
+// unpackVia decodes enc into obj with obj's own Unpack method (argument: pointer to a byte array of
+// exactly len(enc) bytes, or a byte slice) and overwrites the argument afterwards; false if obj has none.
+func unpackVia(obj any, enc []byte) bool {
+	m := reflect.ValueOf(obj).MethodByName("Unpack")
+	if !m.IsValid() || m.Type().NumIn() != 1 || m.Type().NumOut() != 0 {
+		return false
+	}
+	at := m.Type().In(0)
+	switch {
+	case at.Kind() == reflect.Ptr && at.Elem().Kind() == reflect.Array && at.Elem().Elem().Kind() == reflect.Uint8 && at.Elem().Len() == len(enc):
+		arr := reflect.New(at.Elem())
+		reflect.Copy(arr.Elem(), reflect.ValueOf(enc))
+		m.Call([]reflect.Value{arr})
+		for i := 0; i < len(enc); i++ {
+			arr.Elem().Index(i).SetUint(uint64(enc[i] ^ 0xa5))
+		}
+		return true
+	case at.Kind() == reflect.Slice && at.Elem().Kind() == reflect.Uint8:
+		b := append([]byte{}, enc...)
+		m.Call([]reflect.Value{reflect.ValueOf(b)})
+		for i := range b {
+			b[i] ^= 0xa5
+		}
+		return true
+	}
+	return false
+}
+
 // TestC11SeqReuse: decoding into a previously used object gives the same
 // result as decoding into a fresh one (no stale cached state, no OR-ing into
 // old contents).
@@ -663,13 +691,19 @@ func TestC11SeqReuse(t *testing.T) {
 				for j := 0; j < k; j++ {
 					i := rapid.IntRange(0, r.n-1).Draw(t, "i")
 					buf := append([]byte{}, r.enc(i)...)
-					if err := r.dec(obj, buf); err != nil {
-						t.Fatalf("harness: %s: valid encoding %d refused: %v", r.name, i, err)
+					how := "decode"
+					if rapid.Bool().Draw(t, "viaUnpack") && unpackVia(obj, buf) {
+						// the typed Unpack(*[N]byte) / Unpack([]byte) of the object, where it has one
+						how = "Unpack"
+					} else {
+						if err := r.dec(obj, buf); err != nil {
+							t.Fatalf("harness: %s: valid encoding %d refused: %v", r.name, i, err)
+						}
+						for bi := range buf { // the decoded object must not alias the caller's buffer
+							buf[bi] ^= 0xa5
+						}
 					}
-					for bi := range buf { // the decoded object must not alias the caller's buffer
-						buf[bi] ^= 0xa5
-					}
-					hist += fmt.Sprintf("decode(#%d) ", i)
+					hist += fmt.Sprintf("%s(#%d) ", how, i)
 					last = i
 					if j < k-1 && rapid.Bool().Draw(t, "use") {
 						_ = r.observe(obj)
